@@ -11,6 +11,7 @@ use crate::{
     binary::{
         decode_combination_finite,
         decode_significand_trailing_declets,
+        is_finite,
         is_sign_negative,
         BinaryBuf,
     },
@@ -77,8 +78,19 @@ pub(crate) fn decimal_to_int<D: BinaryBuf, I: Integer>(decimal: &D) -> Result<I,
                 Err(ConvertError::non_integer(type_name::<I>()))
             }
         }
-        // If the exponent is very large or small then it can't be represented as an integer
-        _ => Err(ConvertError::would_overflow(type_name::<I>())),
+        // If the exponent is very large or small then it can only be represented as an integer if it's zero
+        _ => {
+            let mut digits = Some(msd.get_ascii())
+                .into_iter()
+                .chain(decode_significand_trailing_declets(decimal).flatten());
+
+            if is_finite(decimal) && digits.all(|d| d == b'0') {
+                I::try_from_ascii(is_sign_negative(decimal), iter::once(b'0'))
+                    .ok_or_else(|| ConvertError::would_overflow(type_name::<I>()))
+            } else {
+                Err(ConvertError::would_overflow(type_name::<I>()))
+            }
+        }
     }
 }
 
